@@ -275,6 +275,27 @@ def work(args):
             out.append({"A": A, "B": B, "kind": kind + ".pro", "pos": pos_p, "src": full_p, "inner": inner + ".pro()",
                         "r_en": build_real(full_p, B, "en"), "r_fr": build_real(full_p, B, "fr"),
                         "r_buildA": build_real(full_p, A, B), "inner_own": ["", False], "inner_exp_under_B": ["", False]})
+        # bare strings as phrase children (converted to Q by the constructor, in the language of the PHRASE): function
+        # words that start an elision / contraction / a-an decision of the embedded language
+        if rng.random() < 0.2:
+            vn = {"fr": ["eau", "ami", "arbre", "homme", "école", "hôtel"], "en": ["apple", "hour", "eagle", "orange"]}[A]
+            cn = {"fr": ["chat", "garçon", "livre"], "en": ["cat", "dog"]}[A]
+            LA = ',"%s"' % A
+            tpl = {"fr": [('PP', 'PP("de",N(%s%s),lang="fr")' % (exprgen.q(rng.choice(vn)), LA)),
+                          ('PP', 'PP("à",NP(D("le"%s),N(%s%s),lang="fr"),lang="fr")' % (LA, exprgen.q(rng.choice(cn)), LA)),
+                          ('PP', 'PP("de",NP(D("le"%s),N(%s%s),lang="fr"),lang="fr")' % (LA, exprgen.q(rng.choice(cn)), LA)),
+                          ('NP', 'NP(D("le"%s),N(%s%s),"de",N(%s%s),lang="fr")' % (LA, exprgen.q(rng.choice(cn)), LA, exprgen.q(rng.choice(vn)), LA)),
+                          ('NP', 'NP("le",N(%s%s),lang="fr")' % (exprgen.q(rng.choice(vn)), LA)),
+                          ('PP', 'PP("jusque",PP(P("à"%s),NP(D("le"%s),N(%s%s),lang="fr"),lang="fr"),lang="fr")' % (LA, LA, exprgen.q(rng.choice(cn)), LA))],
+                   "en": [('NP', 'NP("a",N(%s%s),lang="en")' % (exprgen.q(rng.choice(vn)), LA)),
+                          ('NP', 'NP("a",A("old"%s),N(%s%s),lang="en")' % (LA, exprgen.q(rng.choice(cn)), LA)),
+                          ('PP', 'PP("of",NP(D("a"%s),N(%s%s),lang="en"),lang="en")' % (LA, exprgen.q(rng.choice(vn)), LA))]}[A]
+            kb, ib = rng.choice(tpl)
+            full_b, pos_b = frame(rng, B, kb, ib)
+            out.append({"A": A, "B": B, "kind": kb + "(bare-string)", "pos": pos_b, "src": full_b, "inner": ib,
+                        "r_en": build_real(full_b, B, "en"), "r_fr": build_real(full_b, B, "fr"),
+                        "r_buildA": build_real(full_b, A, B),
+                        "inner_own": build_real(strip_lang(ib), A, A), "inner_exp_under_B": build_real(ib, B, B)})
         # tonic pronouns after a preposition, pronominalized (the clitic is looked up at realization time)
         if rng.random() < 0.08:
             pr = {"fr": ["lui", "elle", "eux", "moi", "toi"], "en": ["me", "him", "them"]}[A]
